@@ -129,4 +129,4 @@ class Group(Entity):
     @metadata.deleter
     def metadata(self):
         if "metadata" in self._h5group:
-            self._h5group.delete("metadata")
+            self._h5group.delete("metadata", False)
